@@ -44,10 +44,10 @@ PROPS = {
                          "automatic_storage_dumps", "update_storage_delta", "update_full_cumulative", "update_nb_of_active", "update_occupied_"),
                 obl=ALL_OBL, bounded="c04", level="other", design="4 C04",
                 technique="contracts on the sizing functions of ServerBase and Storage (raise-iff, nb >= raw, ceilings, active <= provisioned, same-index preconditions of positional operations); floating-point clause and window lemma by bounded twin"),
-    "C02": dict(jobs=upd("update_energy_footprint", "update_instances_fabrication_footprint", "update_devices_energy_footprint", "update_total_footprint",
-                         "System", "Network"),
+    "C02": dict(jobs=lambda j: j.startswith("lookup:") or upd("update_energy_footprint", "update_instances_fabrication_footprint", "update_devices_energy_footprint", "update_total_footprint",
+                         "System", "Network")(j),
                 obl=ALL_OBL, bounded="c02", level="other", design="4 C02",
-                technique="contracts: footprint = energy x the carbon intensity that applies, fabrication formula, system aggregation; bounded twin over sharing topologies"),
+                technique="contracts: footprint = energy x the carbon intensity that applies (per usage pattern country for the network, nested ghost folds), fabrication formula, system total = every server, storage, network and usage pattern once (System.update_total_footprint); the derived look-ups those contracts iterate (System.servers / storages / networks, Network.jobs, ServerBase.jobs, Storage.jobs, JobBase.usage_patterns ... 22 properties) proved from their real source to list exactly the objects of their defining relation, each once; bounded twin over sharing topologies"),
     "C10": dict(jobs=lambda j: j.startswith("update:") or j == "avg", obl=lambda o: o["kind"] in ("post", "pre", "libpre") and "cover" not in o["name"],
                 bounded="c10", level="proof", design="4 C12/C10",
                 technique="every contract is stated on physical (base-unit) values and proved with the unit conversion factor of every input left symbolic (> 0): unit independence by construction; bare-magnitude reads fail the proof unless preceded by .to(<literal unit>)"),
